@@ -35,7 +35,7 @@ def esc_string(s, style, quote='"', long=False):
         elif ch == "\n":
             out.append("\n" if (long and style == "raw") else "\\n")
         elif ch == "\r":
-            out.append("\\r")
+            out.append("\r" if (long and style == "raw") else "\\r")
         elif ch == "\t":
             out.append("\t" if style == "raw" else ("\\u0009" if style == "uchar" else "\\t"))
         elif o > 0x7E and style == "uchar":
@@ -88,7 +88,7 @@ def rel_ref(iri):
 # ---------------------------------------------------------------------------------------------
 # N-Triples / N-Quads
 
-NT_FLAGS = ["uchar", "Uchar", "tabs", "tight", "comments", "blank-lines", "crlf", "bnode-labels", "lang-case", "no-final-eol"]
+NT_FLAGS = ["uchar", "Uchar", "tabs", "tight", "comments", "blank-lines", "crlf", "bnode-labels", "lang-case", "no-final-eol", "no-space", "cr"]
 
 
 def bnode_label(k, flags, table):
@@ -117,7 +117,7 @@ def nt_term(k, flags, table):
 
 def write_nt(rows, flags=frozenset(), quads=False):
     table = {}
-    sep = "\t" if "tabs" in flags else " "
+    sep = "" if "no-space" in flags else "\t" if "tabs" in flags else " "  # (white space between the terms of a statement is optional)
     lines = []
     if "comments" in flags:
         lines.append("# a comment line")
@@ -135,7 +135,7 @@ def write_nt(rows, flags=frozenset(), quads=False):
         if "blank-lines" in flags:
             lines.append("")
             lines.append("   ")
-    eol = "\r\n" if "crlf" in flags else "\n"
+    eol = "\r\n" if "crlf" in flags else "\r" if "cr" in flags else "\n"  # EOL ::= [#xD#xA]+
     doc = eol.join(lines)
     if "no-final-eol" not in flags:
         doc += eol
@@ -147,7 +147,7 @@ def write_nt(rows, flags=frozenset(), quads=False):
 
 TTL_FLAGS = ["single-quote", "long-quote", "long-single-quote", "uchar", "raw", "prefix", "sparql-prefix", "empty-prefix", "base", "sparql-base",
              "relative", "predicate-list", "object-list", "anon", "collection", "numeric", "a", "comments", "tight", "newlines", "bnode-labels",
-             "lang-case", "pn-local-escape", "semicolons", "nested-anon", "odd-prefix", "redefine", "dot-relative", "keyword-case", "no-final-eol", "crlf",
+             "lang-case", "pn-local-escape", "semicolons", "nested-anon", "odd-prefix", "redefine", "dot-relative", "keyword-case", "no-final-eol", "crlf", "cr",
              "file-base", "mid-redeclare", "trig-graph-keyword", "trig-bare-default", "trig-no-final-dot", "trig-split-graph"]
 
 PN_LOCAL_OK = re.compile(r"^[A-Za-z_][A-Za-z0-9_\-]*$")
@@ -396,6 +396,8 @@ def _finish(lines, rows, flags):
         doc += "\n"
     if "crlf" in flags and not any(x is not None and x[0] == "L" and "\n" in x[1] for r in rows for x in r):
         doc = doc.replace("\n", "\r\n")  # (only where no string literal can contain a raw line feed)
+    elif "cr" in flags and not any(x is not None and x[0] == "L" and "\n" in x[1] for r in rows for x in r):
+        doc = doc.replace("\n", "\r")  # a bare carriage return is white space, and ends a comment, like a line feed
     return doc
 
 
